@@ -163,6 +163,9 @@ func runConn(id string, toks []string) (res string) {
 		ctx.GetSessionForConnection(sc).SetCryptographer(sess)
 		var out []string
 		for _, bs := range strings.Split(toks[3], ",") {
+			if bs == "" {
+				continue // no read asked for
+			}
 			if strings.HasPrefix(bs, "w") {
 				// between two reads the accessory writes on the same connection (a response, an event): no effect on reads
 				k, _ := strconv.Atoi(bs[1:])
